@@ -117,14 +117,20 @@ def relational(rep, tier, rng):
     from numpy.random import SeedSequence
     viol = []
     eops = [qutip.sigmaz(), qutip.sigmax()]
-    names = ["mc", "nm_mc", "sse", "sme"]
+    names = ["mc", "nm_mc", "sse", "sme", "mc:vern7", "nm_mc:vern9"]
+
+    def make_solver2(nm, **kw):
+        # "solver:method" runs the solver with that integration method (explicit Runge-Kutta integrators keep step-size state)
+        if ":" in nm:
+            kw = dict(kw, method=nm.split(":")[1])
+        return make_solver(nm.split(":")[0], **kw)
     for name in names:
         base = 1000 + names.index(name)
         # reference: each seed on a fresh solver, alone
         seeds = SeedSequence(base).spawn(5)
         ref = {}
         for i, sd in enumerate(seeds):
-            sol, st = make_solver(name)
+            sol, st = make_solver2(name)
             r = sol.run(st, TL, ntraj=1, e_ops=eops, seeds=[sd])
             ref[i] = traj_sig(r, 0)
         rep.evaluations += 5
@@ -138,21 +144,21 @@ def relational(rep, tier, rng):
                     viol.append((f"{tag}:{name}", f"{name}: the trajectory of seed {i} {tag} differs from the same seed run alone ({d})"))
                     return
         # (1) one ensemble, serial, in list order and permuted positions
-        sol, st = make_solver(name)
+        sol, st = make_solver2(name)
         compare("in-a-larger-ensemble", sol.run(st, TL, ntraj=5, e_ops=eops, seeds=list(seeds)), [0, 1, 2, 3, 4])
         perm = [3, 0, 4, 1, 2]
-        sol, st = make_solver(name)
+        sol, st = make_solver2(name)
         compare("at-another-list-position", sol.run(st, TL, ntraj=5, e_ops=eops, seeds=[seeds[i] for i in perm]), perm)
         # (2) same solver object after other runs: other seeds, another time range, then these seeds
-        sol, st = make_solver(name)
+        sol, st = make_solver2(name)
         sol.run(st, TL, ntraj=3, e_ops=eops, seeds=77)
         sol.run(st, TL[2:], ntraj=2, e_ops=eops, seeds=78)
         compare("after-other-runs-on-the-same-solver", sol.run(st, TL, ntraj=3, e_ops=eops, seeds=list(seeds[:3])), [0, 1, 2])
         # (2c) after runs with other arguments over the same time list, the step interface and (stochastic solvers) a
         #      replay from a measurement record, the original arguments give the original trajectories again
-        sol, st = make_solver(name)
-        other = {"w": 1.7, "amp": 0.2} if name == "nm_mc" else {"w": 1.7}
-        back = dict(ARGS0) if name == "nm_mc" else {"w": ARGS0["w"]}
+        sol, st = make_solver2(name)
+        other = {"w": 1.7, "amp": 0.2} if name.startswith("nm_mc") else {"w": 1.7}
+        back = dict(ARGS0) if name.startswith("nm_mc") else {"w": ARGS0["w"]}
         try:
             sol.start(st, float(TL[0]), seed=5)
             sol.step(float(TL[1]))
@@ -169,10 +175,10 @@ def relational(rep, tier, rng):
         except Exception as e:      # noqa
             viol.append((f"reuse-raises:{name}", f"{name}: reuse with other arguments raises {type(e).__name__}: {e}"[:200]))
         # (2b) a run over a later time range after a run over the whole range, vs a fresh solver
-        solA, st = make_solver(name)
+        solA, st = make_solver2(name)
         solA.run(st, TL, ntraj=2, e_ops=eops, seeds=list(seeds[:2]))
         rA = solA.run(st, TL[2:], ntraj=2, e_ops=eops, seeds=list(seeds[:2]))
-        solB, _ = make_solver(name)
+        solB, _ = make_solver2(name)
         rB = solB.run(st, TL[2:], ntraj=2, e_ops=eops, seeds=list(seeds[:2]))
         for j in range(2):
             d = same(traj_sig(rB, j), traj_sig(rA, j))
@@ -181,11 +187,11 @@ def relational(rep, tier, rng):
                 viol.append((f"later-range-after-earlier-run:{name}", f"{name}: a run over tlist[2:] on a solver that had run over the whole tlist differs from a fresh solver ({d})"))
                 break
         # (3) int seed vs SeedSequence vs list of its children
-        sol, st = make_solver(name)
+        sol, st = make_solver2(name)
         r_int = sol.run(st, TL, ntraj=3, e_ops=eops, seeds=base)
         compare("from-an-integer-seed", r_int, [0, 1, 2])
         # (4) reported seeds regenerate the trajectories, aligned by index
-        sol2, st = make_solver(name)
+        sol2, st = make_solver2(name)
         r_back = sol2.run(st, TL, ntraj=3, e_ops=eops, seeds=list(r_int.seeds))
         for j in range(3):
             d = same(traj_sig(r_int, j), traj_sig(r_back, j))
@@ -193,9 +199,9 @@ def relational(rep, tier, rng):
                 viol.append((f"reported-seeds:{name}", f"{name}: seeds reported by a result do not regenerate trajectory {j} ({d})"))
                 break
         # (5) keep_runs_results off: averages equal those of the kept runs (summation rounding only)
-        sol3, st = make_solver(name, keep_runs_results=False)
+        sol3, st = make_solver2(name, keep_runs_results=False)
         r_avg = sol3.run(st, TL, ntraj=5, e_ops=eops, seeds=list(seeds))
-        sol4, st = make_solver(name)
+        sol4, st = make_solver2(name)
         r_keep = sol4.run(st, TL, ntraj=5, e_ops=eops, seeds=list(seeds))
         for k in range(2):
             if np.abs(np.asarray(r_avg.average_expect[k]) - np.asarray(r_keep.average_expect[k])).max() > 1e-10:
@@ -205,7 +211,7 @@ def relational(rep, tier, rng):
         for workers in ((2,) if tier == "quick" else (2, 3)):
             lock = tempfile.mktemp(prefix="qv_c13_")
             slow = SlowFirst(lock, 1.0)
-            sol5, st = make_solver(name, map="parallel", num_cpus=workers)
+            sol5, st = make_solver2(name, map="parallel", num_cpus=workers)
             try:
                 with core.time_limit(300):
                     rp = sol5.run(st, TL, ntraj=4, e_ops=[qutip.sigmaz(), qutip.sigmax(), slow], seeds=list(seeds[:4]))
